@@ -206,6 +206,11 @@ func runSQLHist(in sqlHistIn) (out sqlHistOut, ops []sqlOp) {
 				}
 			case "saveMeta":
 				err := inTx(ctx, store, func(st *ledgerstore.Store) error {
+					var now time.Time
+					if err := st.GetDB().NewRaw(`select "` + l.Bucket + `".transaction_date()`).Scan(ctx, &now); err != nil {
+						return fmt.Errorf("transaction_date: %w", err)
+					}
+					op.At = now.UTC().UnixMicro()
 					if a, ok := op.Target["account"].(string); ok {
 						// what DefaultController.saveAccountMetadata does
 						acc := &ledger.Account{Address: a, Metadata: mdOf(op.Metadata)}
@@ -233,6 +238,12 @@ func runSQLHist(in sqlHistIn) (out sqlHistOut, ops []sqlOp) {
 				}
 			case "deleteMeta":
 				err := inTx(ctx, store, func(st *ledgerstore.Store) error {
+					// the date the database allots to this write (the store call returns none)
+					var now time.Time
+					if err := st.GetDB().NewRaw(`select "` + l.Bucket + `".transaction_date()`).Scan(ctx, &now); err != nil {
+						return fmt.Errorf("transaction_date: %w", err)
+					}
+					op.At = now.UTC().UnixMicro()
 					if a, ok := op.Target["account"].(string); ok {
 						return st.DeleteAccountMetadata(ctx, a, op.Key)
 					}
@@ -256,7 +267,8 @@ func runSQLHist(in sqlHistIn) (out sqlHistOut, ops []sqlOp) {
 		out.Err = "dump: " + err.Error()
 		return out, ops
 	}
-	snap, err := snapshotOfDump(raw, fs[features.FeatureMovesHistory] == "ON")
+	snap, err := snapshotOfDump(raw, fs[features.FeatureMovesHistory] == "ON",
+		fs[features.FeatureTransactionMetadataHistory] == "SYNC", fs[features.FeatureAccountMetadataHistory] == "SYNC")
 	if err != nil {
 		out.Err = "snapshot: " + err.Error()
 		return out, ops
@@ -307,7 +319,7 @@ func decodeNumber(b []byte, into any) error {
 	return d.Decode(into)
 }
 
-func snapshotOfDump(raw json.RawMessage, withMoves bool) (json.RawMessage, error) {
+func snapshotOfDump(raw json.RawMessage, withMoves, withTxHist, withAccHist bool) (json.RawMessage, error) {
 	var tables map[string][]map[string]any
 	if err := decodeNumber(raw, &tables); err != nil {
 		return nil, err
@@ -462,6 +474,46 @@ func snapshotOfDump(raw json.RawMessage, withMoves bool) (json.RawMessage, error
 	}
 	sort.Slice(accts, func(i, j int) bool { return accts[i].Address < accts[j].Address })
 	snap["accounts"] = accts
+	// metadata histories (present only when the history features are on)
+	type snapRev struct {
+		TxID     *json.Number      `json:"txId,omitempty"`
+		Address  string            `json:"address,omitempty"`
+		Revision json.Number       `json:"revision"`
+		Date     any               `json:"date"`
+		Metadata map[string]string `json:"metadata"`
+	}
+	revs := func(name, idCol string) ([]snapRev, error) {
+		out := make([]snapRev, 0)
+		for _, r := range table(name) {
+			v := snapRev{Revision: json.Number(fmt.Sprint(r["revision"])), Metadata: strMap(r["metadata"])}
+			if idCol == "transactions_id" {
+				n := json.Number(fmt.Sprint(r[idCol]))
+				v.TxID = &n
+			} else {
+				v.Address = fmt.Sprint(r[idCol])
+			}
+			var err error
+			if v.Date, err = dumpTime(r["date"]); err != nil {
+				return nil, err
+			}
+			out = append(out, v)
+		}
+		return out, nil
+	}
+	if withTxHist {
+		rs, err := revs("transactions_metadata", "transactions_id")
+		if err != nil {
+			return nil, err
+		}
+		snap["transactionsMetadata"] = rs
+	}
+	if withAccHist {
+		rs, err := revs("accounts_metadata", "accounts_address")
+		if err != nil {
+			return nil, err
+		}
+		snap["accountsMetadata"] = rs
+	}
 	return json.Marshal(snap)
 }
 
